@@ -17,6 +17,8 @@ HANDWRITTEN_DEPTH = 3      # hand-written permutations for every content reachab
 
 
 def lang_spec(name):
+    if name == 'CLSopp':
+        return families.cls_langs()['opposite']
     return {'OPS': families.ops_lang, 'OPS2': families.ops2_lang, 'FR': families.fr_lang}[name]()
 
 
@@ -44,6 +46,13 @@ def extra_plain_models():
     out.append(('FR', PlainModel([('of', 'Office'), ('pr', 'Printer'), ('p2', 'Printer'), ('se', 'Server'), ('di', 'Disk')],
                                  [('Has_Office_Printer', 'owner', ['of'], 'parts', ['pr', 'p2']),
                                   ('Has_Server_Disk', 'owner', ['se'], 'parts', ['di'])])))
+    # the same association name between the same two types in opposite directions, both used in one model
+    out.append(('CLSopp', PlainModel([('h', 'Hh'), ('s', 'Ss'), ('h2', 'H2'), ('s2', 'Ss')],
+                                     [('Uses_Hh_Ss', 'users', ['h', 'h2'], 'used', ['s']),
+                                      ('Uses_Ss_Hh', 'clients', ['s', 's2'], 'server', ['h2'])])))
+    out.append(('CLSopp', PlainModel([('s', 'Ss'), ('h', 'Hh')],
+                                     [('Uses_Ss_Hh', 'clients', ['s'], 'server', ['h']),
+                                      ('Uses_Hh_Ss', 'users', ['h'], 'used', ['s'])])))
     out.append(('OPS2', PlainModel([('c1', 'Crate'), ('c2', 'Crate'), ('i1', 'Item'), ('i2', 'Item')],
                                    [('Part', 'whole', ['c1'], 'parts', ['c2', 'i1']), ('Contain', 'container', ['c2'], 'inside', ['i1', 'i2']),
                                     ('Pair', 'crateA', ['c1', 'c2'], 'itemsB', ['i1', 'i2'])])))
@@ -263,6 +272,29 @@ def _job(job):
             if len(hist) <= HANDWRITTEN_DEPTH:
                 viols += handwritten(system.fx, sp, c.model, case, stats)
             stats['models'] = stats.get('models', 0) + 1
+    elif kind == 'cross':
+        # several languages that share asset type names ('Data', 'Host', ...) are used alternately in ONE process:
+        # what one language's models leave behind must not leak into the next one's files
+        import os
+        from .. import modelgen
+        core = langs.mar_spec(os.path.join(sandbox.TESTDATA, 'org.mal-lang.coreLang-1.0.0.mar'))
+        alt = families.spec([families.asset('Data', steps=[families.step('read', 'or'), families.step('sealed', 'defense', ttc=families.fn('Enabled')),
+                                                            families.step('encrypted', 'defense')]),
+                             families.asset('Host', steps=[families.step('access', 'or'), families.step('patched', 'defense', ttc=families.fn('Enabled'))])],
+                            [families.assoc('Holds', 'Host', 'owner', '0..1', '*', 'datas', 'Data')], lang_id='org.verif.alt')
+        rounds = [('OPS', families.ops_lang(), [('h', 'Host', {'patched': 1.0}), ('d', 'Data', {'encrypted': 0.5})]),
+                  ('ALT', alt, [('h', 'Host', {'patched': 0.0}), ('d', 'Data', {'sealed': 0.0, 'encrypted': 1.0})]),
+                  ('coreLang', core, [('h', 'Application', {'notPresent': 1.0}), ('d', 'Data', {'notPresent': 0.5})]),
+                  ('OPS', families.ops_lang(), [('h', 'Host', {'hardened': 0.0}), ('d', 'Data', {'encrypted': 1.0})]),
+                  ('ALT', alt, [('h', 'Host', {}), ('d', 'Data', {'sealed': 0.5})])]
+        from maltoolbox.model import Model
+        for k, (lname, spx, assets) in enumerate(rounds * 2):
+            fxx = langs.fixture(spx, key='cross:' + lname)
+            m = Model(f'cross {k}', fxx.factory)
+            for nm, t, dv in assets:
+                m.add_asset(getattr(fxx.ns, t)(name=nm, **dv))
+            viols += roundtrip(fxx, spx, m, {'source': 'cross_language', 'round': k, 'language': lname}, stats)
+            stats['models'] = stats.get('models', 0) + 1
     elif kind == 'corelang':
         import os
         from maltoolbox.model import Model
@@ -313,6 +345,7 @@ def run(tier, seed):
     h2 = c18.distinct_histories('OPS2', depth - 1, 0, scratch, seed)
     jobs += [('hist', ('OPS2', h2[i:i + 16])) for i in range(0, len(h2), 16)]
     jobs.append(('corelang', ['simple_example_model.json', 'scad_equivalent_model.yml']))
+    jobs.append(('cross', None))
     dm = decorated_models()
     jobs += [('deco', dm[i:i + 4]) for i in range(0, len(dm), 4)]
     for stats, viols in common.pmap(_job, jobs):
@@ -344,6 +377,8 @@ def replay(path):
         vs = roundtrip(system.fx, sp, ctx.model, c, stats) + handwritten(system.fx, sp, ctx.model, c, stats)
     elif c['source'] == 'file':
         stats, vs = _job(('corelang', [c['file']]))
+    elif c['source'] == 'cross_language':
+        stats, vs = _job(('cross', None))
     else:
         fx = langs.fixture(sp)
         d = dict(c['model'])
